@@ -517,6 +517,9 @@ pub const SCALED: &[&str] = &[
     "scale_v9_templates_in_one_flowset",
     "scale_ipfix_template_sets",
     "scale_v9_options_data_sets",
+    "scale_packed_v9_unknown_template_packets",
+    "scale_packed_v9_empty_packets",
+    "scale_packed_ipfix_unknown_set_messages",
 ];
 
 pub fn scaled(rng: &mut Rng, which: &str, n: usize) -> Vec<Vec<u8>> {
@@ -534,6 +537,30 @@ pub fn scaled(rng: &mut Rng, which: &str, n: usize) -> Vec<Vec<u8>> {
             for _ in 0..n {
                 v.extend_from_slice(&[0, 5, 0, 0]);
                 v.extend(rng.bytes(20));
+            }
+            vec![v]
+        }
+        "scale_packed_v9_unknown_template_packets" => {
+            // each packet carries data for a template nobody sent (lost template, restart):
+            // the first one ends the call with one error; anything that keeps going behind it
+            // and reports the rest again per packet is quadratic
+            let mut v = Vec::new();
+            for _ in 0..n {
+                v.extend(v9_pkt(rng, &[set(64999, &[1, 2, 3, 4], 0)]));
+            }
+            vec![v]
+        }
+        "scale_packed_v9_empty_packets" => {
+            let mut v = Vec::new();
+            for _ in 0..n {
+                v.extend(v9_pkt(rng, &[]));
+            }
+            vec![v]
+        }
+        "scale_packed_ipfix_unknown_set_messages" => {
+            let mut v = Vec::new();
+            for _ in 0..n {
+                v.extend(ipfix_pkt(rng, &[set(64999, &[1, 2, 3, 4], 0)]));
             }
             vec![v]
         }
@@ -590,6 +617,9 @@ pub fn unit(which: &str) -> usize {
     match which {
         "scale_packed_ipfix_messages" => 16,
         "scale_packed_v5_headers" => 24,
+        "scale_packed_v9_unknown_template_packets" => 28,
+        "scale_packed_v9_empty_packets" => 20,
+        "scale_packed_ipfix_unknown_set_messages" => 24,
         "scale_v9_one_byte_records" | "scale_ipfix_one_byte_records" | "scale_ipfix_empty_varlen_records" => 1,
         "scale_v9_options_data_sets" => 12,
         _ => 8,
